@@ -75,6 +75,14 @@ class _Outcome(Exception):
     pass
 
 
+def section_digest(content):
+    """a section plugin (entry point cobald.config.sections: verifsection)"""
+    emit("section", "verifsection", content=repr(content)[:80])
+    if isinstance(content, dict) and content.get("fail"):
+        raise ValueError("section plugin refuses its content")
+    return {"digested": content}
+
+
 def _end(self):
     emit("failing", self.fx_name, kind=self.fail_kind)
     if self.fail_kind == "raise":
@@ -203,7 +211,8 @@ def ensure_fixtures():
     global _ready
     if not _ready:
         write_module(MOD + ".py", FIXTURES)
-        write_entry_points("verif_daemon", {"cobald.config.yaml_constructors": {t: f"{MOD}:{t}" for t in TAGS}})
+        write_entry_points("verif_daemon", {"cobald.config.yaml_constructors": {t: f"{MOD}:{t}" for t in TAGS},
+                                            "cobald.config.sections": {"verifsection": f"{MOD}:section_digest"}})
         _ready = True
     return scratch_dir()
 
